@@ -3,5 +3,13 @@ claimed = {
   "For all byte streams (symbolic stream, every read may fail at any point): protocol.Read returns a message xor an error, on success consumes exactly 4+L bytes, never more than 4+L even on failure, refuses L > 1 MiB, never panics (bounds, nil, make, type assertions), and allocates at most 32*L+64 KiB outside the bencode dependency; proved per return site and per allocation site of the real SSA, with readUint16/32, GetBuffer/PutBuffer and pex.ParseCompact under contract.",
   "Assumed: contracts of bufio/io/binary/bytes/netip/sync.Pool and of zeebo/bencode (Decode fills an arbitrary value, consumes at most its limit; on success byte strings are no longer than the input consumed). Allocation inside bencode is NOT bounded (known finding F3, three call sites). Logging calls are treated as no-ops.",
   "DESIGN.md 5/C04"),
+ "C12": (
+  "For all (index, size, payload) and all states of the metadata exchange: tor.gotMetadata never panics, writes only inside the metadata buffer and only the block named (a block already present is never overwritten by a duplicate), reports completion only when SHA-1(info) equals the torrent's info-hash and MetadataComplete accepted the dictionary (then the geometry invariant Geom holds and infoComplete == 1), and otherwise either leaves the exchange consistent or resets it completely; infoComplete changes nowhere else in these functions; resizeMetadata/metadataVote keep the request table in step with the expected size (invariant MetaOK); hash.Equal is proved equal to byte-wise equality.",
+  "Assumed: SHA-1 is an uninterpreted function of the bytes hashed (crypto/sha1.Sum), zeebo/bencode.DecodeBytes yields an arbitrary BInfo. Not decided: the liveness clause (the exchange completes once honest blocks arrive) beyond the two sequential obligations above; requestMetadata/metadataGuess/metadataPeers are not under contract.",
+  "DESIGN.md 5/C12"),
+ "C13": (
+  "For an ARBITRARY decoded info dictionary (every value of BInfo): (*Torrent).MetadataComplete never panics and, when it returns nil, the torrent's geometry is self-consistent -- piece length a positive multiple of 16 KiB, length >= 0, number of pieces = ceil(length/piece length) = number of 20-byte piece hashes, one in-flight slot per 16 KiB block, files contiguous from offset 0 with non-negative lengths summing to the length, a non-empty name; on error infoComplete and the piece store are untouched. piece.(*Pieces).MetadataComplete is proved against the same geometry.",
+  "Assumed: zeebo/bencode (the parser itself is external: 'all byte strings' enters through the arbitrary BInfo). Not under contract yet: ReadTorrent, ReadMagnet, WriteTorrent (info-hash identity and tracker/web-seed lists), New.",
+  "DESIGN.md 5/C13"),
 }
 not_claimed = {}
